@@ -227,7 +227,7 @@ def run(prog, rep):
     # and this decoder does not return)
     from .c01 import attr_linkage
     for u in cd.units.values():
-        rep.attempt(attr_linkage, rep, cd, u, rule="decoded-values", reader_driven=False)
+        rep.attempt(attr_linkage, rep, cd, u, rule="decoded-values", reader_driven=True)
     # comments / labels reach the file unaltered only if the string writer refuses what does not fit instead of cutting it
     from .c13 import string_write_rules
     rep.attempt(string_write_rules, prog, rep)
